@@ -202,3 +202,6 @@ def run(prog: Program, rep: Report, tier: str = "quick") -> None:
     rep.floor("R15.1", 25 * n)
     rep.floor("R15.3", 2 * n)
     rep.floor("R15.5", 2 * n)
+    from . import game
+
+    game.add_instances(rep, game.c15_job, [(i, tier) for i in range(n)], "R15.6", 30 * n)
